@@ -2,6 +2,8 @@
 From NL.Model Require Import Compiler VM Pipeline.
 From NL.Spec Require Import Sem Fragment Fragment2 Fragment2h Fragment3.
 From NL.Proofs Require ControlProofs VMStepProofs CompilerTotal CompileCorrectC CompileCorrectD CompileCorrectI CompileCorrectH5.
+From NL.Spec Require Import Sem Fragment Fragment2 Fragment2h Fragment3 Fragment4.
+From NL.Proofs Require CompileCorrectJ9 CompileCorrectJ10.
 Import ControlProofs.
 Open Scope Z_scope.
 
@@ -85,6 +87,10 @@ Proof. exact VMStepProofs.return_restores. Qed.
 Theorem compile_expression_ok : forall (e : expr) (st st' : cstate), CompilerTotal.ops_ok_e e = true -> CompilerTotal.code_inv st -> compile_expression e st = Ok st' -> CompilerTotal.code_inv st' /\ (exists suf : list Z, c_code st' = c_code st ++ suf /\ 1 <= zlength suf) /\ CompilerTotal.loops_ext (code_len st) (c_loops st) (c_loops st') /\ map l_start (c_loops st') = map l_start (c_loops st).
 Proof. exact CompilerTotal.compile_expression_ok. Qed.
 
+(* SOURCE level, WHOLE language outside the exclusions of DESIGN 4.3 (functions, heap values, builtins together, collector running): the compiled program computes exactly what the definitional semantics assigns to the tree - which decides this property for every such program of the model *)
+Theorem compile_correct_F4 : forall (orc : oracle) (p : block), in_F4 p = true -> ends_expr p = true -> lits_exact (lits_b p) -> forall bc : bytecode, compile p = Ok bc -> forall fuel : nat, (size3_b p <= fuel)%nat -> sem_program orc fuel p <> SemFuel -> sem_small orc fuel p (length (b_constants bc)) -> (exists budget : nat, obs_eq4 (run_program orc bc budget) (sem_program orc fuel p)) \/ hits_excluded4 (CompileCorrectJ5.fun_table p) orc bc.
+Proof. exact CompileCorrectJ9.compile_correct_F4. Qed.
+
 
 Print Assumptions if_runs_exactly_one_branch.
 Print Assumptions block_without_value_is_null.
@@ -106,3 +112,4 @@ Print Assumptions return_outside_function.
 Print Assumptions return_inside_function.
 Print Assumptions return_restores.
 Print Assumptions compile_expression_ok.
+Print Assumptions compile_correct_F4.
